@@ -167,13 +167,16 @@ func pairProp(e *eco) func(*rapid.T) {
 		}
 		c := pairCase{e.name, a, b}
 		rec.SetCase(c)
-		if cl := knownClass(e, a, b); cl != "" {
-			rec.ExcludedKnown(cl)
-			return
-		}
 		v, err := evaluate(e, a, b)
 		if err != nil {
 			t.Fatalf("oracle failure: %v", err)
+		}
+		// A listed finding excuses a disagreement only if it explains it.
+		if v.inDomain && v.obs != "" {
+			if cl := explainedBy(e, a, b); cl != "" {
+				rec.ExcludedKnown(cl)
+				return
+			}
 		}
 		if !v.inDomain {
 			rec.ExcludedDomain(v.why)
@@ -234,6 +237,21 @@ func hasUpper(s string) bool {
 		}
 	}
 	return false
+}
+
+// explainedBy returns the listed finding that accounts for a disagreement on
+// (a, b), or "". RubyGems upper case: the finding is that the library folds
+// case, so it explains the disagreement only if the reference, given the
+// lower-cased pair, agrees with the library.
+func explainedBy(e *eco, a, b string) string {
+	cl := knownClass(e, a, b)
+	if cl == "RubyGemsUppercase" {
+		v, err := evaluate(e, strings.ToLower(a), strings.ToLower(b))
+		if err != nil || !v.inDomain || v.obs != "" {
+			return ""
+		}
+	}
+	return cl
 }
 
 func knownClass(e *eco, a, b string) string {
@@ -502,7 +520,7 @@ func TestReplay(t *testing.T) {
 	if err != nil {
 		t.Fatal(err)
 	}
-	if v.inDomain && v.obs != "" && knownClass(e, c.A, c.B) == "" {
+	if v.inDomain && v.obs != "" && explainedBy(e, c.A, c.B) == "" {
 		t.Fatalf("replay fails: %s (expected %s)", v.obs, v.exp)
 	}
 }
